@@ -338,7 +338,9 @@ class BlockSelection(Scenario):
                                v_cell_delimiters=real_np.arange(nv + 1.0), z_cell_delimiters=real_np.arange(nz + 1.0))
         n = nu * nv * nz
         bd = bm.add_data({"bd": {"values": real_np.zeros(n), "association": "CELL"}})
-        patch.detach(ws, bm, bd)
+        bb = bm.add_data({"bb": {"values": real_np.ones(n, dtype=bool), "association": "CELL", "type": "boolean"}})
+        bi = bm.add_data({"bi": {"values": (real_np.arange(n) + 50).astype("int32"), "association": "CELL", "type": "integer"}})
+        patch.detach(ws, bm, bd, bb, bi)
         with self.engine(cx) as X:
             du = [0.0] + [cx.real(f"du{i}") for i in range(1, nu + 1)]
             dv = [0.0] + [cx.real(f"dv{i}") for i in range(1, nv + 1)]
@@ -350,6 +352,8 @@ class BlockSelection(Scenario):
             bm.z_cell_delimiters = mk_array(X, dz, (nz + 1,), "float64")
             bm.origin = list(o)
             bd.values = mk_array(X, D, (n,), "float64")
+            bb.values = mk_array(X, [True] * n, (n,), "bool")
+            bi.values = mk_array(X, [q + 50 for q in range(n)], (n,), "int32")
             cen = [None] * n
             for i, j, k in itertools.product(range(nu), range(nv), range(nz)):
                 cen[k + i * nz + j * nu * nz] = [o[0] + (du[i] + du[i + 1]) / 2, o[1] + (dv[j] + dv[j + 1]) / 2,
@@ -382,6 +386,89 @@ class BlockSelection(Scenario):
             return "ok"
 
 
+class DrillholeSelection(Scenario):
+    """a drillhole is selected by its collar (all three coordinates for a 3-D box)"""
+    pid = "C13"
+    builtins_for = (UTILS, "geoh5py.objects.drillhole:float,int")
+
+    def body(self, cx):
+        from geoh5py.workspace import Workspace
+        from geoh5py.objects import Drillhole
+        d, inverse = self.params["d"], self.params["inverse"]
+        ws = Workspace()
+        dh = Drillhole.create(ws, collar=[0.0, 0.0, 0.0], surveys=real_np.c_[[0.0, 10.0], [0.0, 0.0], [-90.0, -90.0]])
+        patch.detach(ws, dh)
+        with self.engine(cx) as X:
+            col = [cx.real(f"c{a}") for a in "xyz"]
+            dh.collar = list(col)
+            lo, hi, ext = _box(cx, X, d)
+            inside = _inside(col, lo, hi, False)
+            mask = dh.mask_by_extent(ext, inverse=inverse)
+            if mask is None:
+                cx.prove(Or(Not(inside), Not(Not(inside) if inverse else inside)),
+                         "None only if the box misses the collar (its bounding box) or the hole does not qualify", "None only when allowed")
+            else:
+                me = elems(mask)
+                cx.prove(len(me) == 1 and Iff(me[0], Not(inside) if inverse else inside),
+                         "the hole is selected iff its collar lies in the closed box (complement under inverse)", "mask exact")
+            new = dh.copy_from_extent(ext, inverse=inverse)
+            sel = Not(inside) if inverse else inside
+            if new is None:
+                cx.prove(Or(Not(sel), Not(inside)), "copy: None only if the hole does not qualify or the box misses it",
+                         "None only when allowed")
+                return "none"
+            cx.prove(sel, "the hole is copied only if it qualifies", "copy vertices")
+            ne = [new.collar[a] for a in "xyz"]
+            cx.prove(And([eq(ne[k], col[k]) for k in range(3)]), "copied hole keeps its collar", "copy vertices")
+            return "ok"
+
+
+class GroupSelection(Scenario):
+    """copying a group by extent applies the same selection (and the inverse flag) to every child"""
+    pid = "C13"
+    builtins_for = (UTILS,)
+
+    def body(self, cx):
+        from geoh5py.workspace import Workspace
+        from geoh5py.objects import Points
+        from geoh5py.groups import ContainerGroup
+        n, d, inverse, nested = (self.params[x] for x in ("n", "d", "inverse", "nested"))
+        ws = Workspace()
+        grp = ContainerGroup.create(ws, name="g")
+        holder = ContainerGroup.create(ws, name="inner", parent=grp) if nested else grp
+        pts = Points.create(ws, vertices=real_np.zeros((n, 3)), parent=holder, name="p")
+        patch.detach(ws, grp, holder, pts)
+        with self.engine(cx) as X:
+            V = [[cx.real(f"v{i}{a}") for a in "xyz"] for i in range(n)]
+            pts.vertices = mk_array(X, [x for r in V for x in r], (n, 3), "float64")
+            lo, hi, ext = _box(cx, X, d)
+            qual = [_inside(V[j], lo, hi, inverse) for j in range(n)]
+            miss = _bbox_miss(V, lo, hi)
+            new = grp.copy_from_extent(ext, inverse=inverse)
+            if new is None:
+                cx.prove(Or(miss, Not(Or(qual))), "None only if the box misses every child or nothing qualifies",
+                         "None only when allowed")
+                return "none"
+            found = []
+            stack = list(new.children)
+            while stack:
+                c = stack.pop()
+                if hasattr(c, "vertices"):
+                    found.append(c)
+                stack.extend(getattr(c, "children", []) if not hasattr(c, "vertices") else [])
+            cx.prove(len(found) == 1, "the copied group holds the copied object", "copy vertices")
+            if len(found) == 1:
+                ve = elems(found[0].vertices)
+                nv2 = shape(found[0].vertices)[0]
+                cx.prove(eq(nv2, Sum(qual)), "the child copy has exactly the selected vertices", "copy vertices")
+                below = [Sum(qual[:j]) for j in range(n)]
+                for j in range(n):
+                    for p in range(nv2):
+                        cx.prove(Implies(And(qual[j], eq(below[j], p)), And([eq(ve[p * 3 + a], V[j][a]) for a in range(3)])),
+                                 f"selected vertex {j}->{p} keeps its coordinates", "copy vertices")
+            return "ok"
+
+
 def scenarios(tier, seed):
     S = []
     if tier == "quick":
@@ -396,7 +483,9 @@ def scenarios(tier, seed):
               GridSelection(nu=4, nv=2, d=2, inverse=False, rot=("3/5", "4/5")),
               DataSelection(kind="curve", n=3, m=2, d=2, inverse=True),
               DataSelection(kind="surface", n=3, m=1, d=3, inverse=False),
-              BlockSelection(shape=(2, 1, 2), d=3, inverse=False)]
+              BlockSelection(shape=(2, 1, 2), d=3, inverse=False),
+              DrillholeSelection(d=3, inverse=False), DrillholeSelection(d=2, inverse=True),
+              GroupSelection(n=2, d=2, inverse=True, nested=False), GroupSelection(n=2, d=3, inverse=False, nested=True)]
     else:
         for d in (2, 3):
             for inv in (False, True):
@@ -413,6 +502,10 @@ def scenarios(tier, seed):
               GridSelection(nu=2, nv=4, d=2, inverse=False, rot=("5/13", "12/13"))]
         S += [BlockSelection(shape=(2, 1, 2), d=3, inverse=False), BlockSelection(shape=(2, 2, 1), d=2, inverse=True),
               BlockSelection(shape=(1, 2, 2), d=3, inverse=True), BlockSelection(shape=(2, 2, 2), d=3, inverse=False)]
+        for d in (2, 3):
+            for inv in (False, True):
+                S.append(DrillholeSelection(d=d, inverse=inv))
+                S.append(GroupSelection(n=3, d=d, inverse=inv, nested=inv))
         for kind, n, m in (("curve", 4, 3), ("surface", 4, 2)):
             for d in (2, 3):
                 for inv in (False, True):
@@ -430,10 +523,11 @@ def main(tier, seed):
             "grid rotation: 0, or an exact rational unit-circle point substituted for cos/sin of the angle (listed stub); dip 0",
             "cell sizes > 0",
         ],
-        outside=["groups recursing over children, GeoImage, drillholes, octrees, rotated block models", "arbitrary (irrational) rotations and non-zero dip",
+        outside=["GeoImage, octrees, rotated block models, drillhole groups", "arbitrary (irrational) rotations and non-zero dip",
                  "shapes larger than the bounds", "float rounding at box faces"],
         bounds={"quick": "<=3 points, <=2 cells, boxes in 2-D and 3-D, inverse on/off; Grid2D 2x2, 3x1 and a rotated 4x2; data-level masks on curve / surface children",
                 "thorough": "<=4 points, <=3 cells; Grid2D up to 3x3 / 4x2, three rational rotations"}[tier],
-        expected_outcomes={"VertexSelection": {"ok"}, "GridSelection": {"ok"}, "DataSelection": {"ok"}, "BlockSelection": {"ok"}},
+        expected_outcomes={"VertexSelection": {"ok"}, "GridSelection": {"ok"}, "DataSelection": {"ok"}, "BlockSelection": {"ok"}, "DrillholeSelection": {"ok"},
+                           "GroupSelection": {"ok"}},
         timeout_ms=10000 if tier == "quick" else 30000,
     )
